@@ -44,25 +44,27 @@ Lemma exogenous_without_model b f : f_exo f = None ->
   filter_skip NExogenous b f = (Ok false, f).
 Proof. intros H; rewrite filter_skip_after; simpl; rewrite H; reflexivity. Qed.
 
-(* full strength over every way of supplying an exogenous model: false *)
-Lemma exogenous_supplied_true_refuted :
-  exists (a : assembly) (b : bool),
-    exo_supplied a = true /\ filter_skip NExogenous b (init_of a) = (Ok false, init_of a).
-Proof. exists ViaDrawParticlesCtor, true; split; reflexivity. Qed.
+(* presence of an exogenous model is preserved by every command word *)
+Lemma run_keeps_exo cs : forall f, have_exo f = true -> exists e, f_exo (snd (run cs f)) = Some e.
+Proof.
+induction cs as [|[w s] cs IH]; intros f Hf; simpl.
+- unfold have_exo in Hf; destruct (f_exo f) as [e|]; [exists e; reflexivity|discriminate].
+- apply IH; rewrite filter_skip_after; unfold have_exo in *;
+    destruct f as [p i st [e|] c]; try discriminate; destruct w; reflexivity.
+Qed.
 
-(* it holds for the assembly through StateModel::add_exogenous_model *)
+(* 'exogenous' answers true at any point of any command word, whichever way the exogenous model was supplied *)
+Lemma exogenous_supplied_true (a : assembly) b cs : exo_supplied a = true ->
+  fst (filter_skip NExogenous b (snd (run cs (init_of a)))) = Ok true.
+Proof.
+intros Ha; rewrite filter_skip_after; simpl.
+assert (Hh : have_exo (init_of a) = true) by (destruct a as [[|]|]; [reflexivity|discriminate Ha|reflexivity]).
+destruct (run_keeps_exo cs (init_of a) Hh) as [e ->]; reflexivity.
+Qed.
+
 Lemma exogenous_supplied_via_state_model b cs :
   fst (filter_skip NExogenous b (snd (run cs (init_of (ViaStateModel true))))) = Ok true.
-Proof.
-rewrite filter_skip_after; simpl.
-assert (H : exists e, f_exo (snd (run cs (init true))) = Some e).
-{ generalize (init true) (eq_refl : have_exo (init true) = true).
-  induction cs as [|[w s] cs IH]; intros f Hf; simpl.
-  - unfold have_exo in Hf; destruct (f_exo f) as [e|]; [exists e; reflexivity|discriminate].
-  - apply IH; rewrite filter_skip_after; unfold have_exo in *;
-      destruct f as [p i st [e|] c]; try discriminate; destruct w; reflexivity. }
-destruct H as [e ->]; reflexivity.
-Qed.
+Proof. exact (exogenous_supplied_true (ViaStateModel true) b cs eq_refl). Qed.
 
 Lemma unknown_false_unchanged b f : filter_skip NOther b f = (Ok false, f).
 Proof. reflexivity. Qed.
